@@ -355,6 +355,10 @@ class Translator(object):
         for n in ast.walk(node):
             if isinstance(n, (ast.Raise, ast.While, ast.Assert)):
                 return True
+            if isinstance(n, ast.Call) and isinstance(n.func, ast.Name) and n.func.id == 'bytearray':
+                return True
+            if isinstance(n, ast.Call) and isinstance(n.func, ast.Name) and n.func.id == 'int' and len(n.args) == 2:
+                return True
             if isinstance(n, ast.Subscript) and not isinstance(n.slice, ast.Slice):
                 return True
             if isinstance(n, ast.BinOp) and isinstance(n.op, (ast.FloorDiv, ast.Mod)):
@@ -427,8 +431,22 @@ class FnTranslator(object):
         self.partial = tr.partial[fn.name]
         self.aux = []
         self.loop_no = 0
-        self.fuel_i = 0
         self.tmp_no = 0
+        # loops are numbered in source order; statements after an `if` are translated once per branch, so a
+        # loop may be visited several times: same source loop + same environment -> same auxiliary Fixpoint
+        self.while_index = {}
+        for n in ast.walk(self.node):
+            if isinstance(n, ast.While):
+                self.while_index[id(n)] = len(self.while_index)
+        self.loop_cache = {}
+        # variables bound to bytearray(): .append(x) raises ValueError unless 0 <= x < 256
+        self.bytearrays = set()
+        for n in ast.walk(self.node):
+            if isinstance(n, ast.Assign) and isinstance(n.value, ast.Call) and isinstance(n.value.func, ast.Name) \
+                    and n.value.func.id == 'bytearray':
+                for t in n.targets:
+                    if isinstance(t, ast.Name):
+                        self.bytearrays.add(t.id)
 
     # -- helpers
     def fresh(self, base='t'):
@@ -480,9 +498,9 @@ class FnTranslator(object):
             rt = '(res %s)' % rt
         text = '\n'.join(self.aux)
         text += '\nDefinition %s %s : %s :=\n%s.\n' % (self.fn.name, ' '.join(params), rt, indent(body))
-        if self.fuel_i != len(self.fn.fuels):
+        if len(self.while_index) != len(self.fn.fuels):
             raise Unsupported('%s: %d while-loops in source but %d fuel expressions in the spec'
-                              % (self.fn.name, self.fuel_i, len(self.fn.fuels)))
+                              % (self.fn.name, len(self.while_index), len(self.fn.fuels)))
         return text
 
     # -- final value of a fall-through
@@ -589,6 +607,10 @@ class FnTranslator(object):
             t = env[v]
             if isinstance(t, tuple) and t[0] == 'list':
                 if f.attr == 'append' and len(call.args) == 1:
+                    if v in self.bytearrays:
+                        return self.expr_k(call.args[0], t[1], env, lambda e, _t:
+                                           'bind (py_byte_check %s) (fun _ =>\nlet %s := %s ++ [%s] in\n%s)' % (
+                                               e, self.var(v), self.var(v), e, self.block(rest, env, k)))
                     return self.expr_k(call.args[0], t[1], env, lambda e, _t:
                                        'let %s := %s ++ [%s] in\n%s' % (self.var(v), self.var(v), e,
                                                                         self.block(rest, env, k)))
@@ -696,13 +718,21 @@ class FnTranslator(object):
             raise Unsupported('while/else')
         if not self.partial:
             raise Unsupported('internal: while in total function')
-        if self.fuel_i >= len(self.fn.fuels):
-            raise Unsupported('%s: no fuel expression for while-loop #%d' % (self.fn.name, self.fuel_i + 1))
-        fuel = self.fn.fuels[self.fuel_i]
-        self.fuel_i += 1
+        wi = self.while_index[id(s)]
+        if wi >= len(self.fn.fuels):
+            raise Unsupported('%s: no fuel expression for while-loop #%d' % (self.fn.name, wi + 1))
+        fuel = self.fn.fuels[wi]
         mod, new_locals, live = self.loop_common(s.body, env)
+        ckey = (id(s), tuple(sorted((k_, repr(v_)) for k_, v_ in env.items())))
+        cached = self.loop_cache.get(ckey)
+        if cached is not None:
+            lname = cached
+            allv = live + mod
+            call = '%s (%s) %s' % (lname, fuel, ' '.join(self.var(v) for v in allv))
+            return 'bind (%s) (fun %s =>\n%s)' % (call, self.state_pat(mod), self.block(rest, env, k))
         self.loop_no += 1
         lname = '%s_loop%d' % (self.fn.name, self.loop_no)
+        self.loop_cache[ckey] = lname
         allv = live + mod
         params = ' '.join('(%s : %s)' % (self.var(v), coq_type(env[v])) for v in allv)
 
@@ -725,12 +755,16 @@ class FnTranslator(object):
             raise Unsupported('for/else or complex target')
         x = s.target.id
         mod, new_locals, live = self.loop_common(s.body, env, extra_bound=(x,))
-        self.loop_no += 1
-        lname = '%s_loop%d' % (self.fn.name, self.loop_no)
+        ckey = (id(s), tuple(sorted((k_, repr(v_)) for k_, v_ in env.items())))
+        cached = self.loop_cache.get(ckey)
+        if cached is None:
+            self.loop_no += 1
+            lname = '%s_loop%d' % (self.fn.name, self.loop_no)
+        else:
+            lname = cached
         allv = live + mod
         if x in allv:
             allv.remove(x)
-        was_partial = self.partial
 
         def with_iter(it, itt):
             if not (isinstance(itt, tuple) and itt[0] == 'list'):
@@ -744,13 +778,15 @@ class FnTranslator(object):
                     if env_after.get(v) != env[v]:
                         raise Unsupported('%s: loop variable %s changes type' % (self.fn.name, v))
                 return '%s xs_ %s' % (lname, ' '.join(self.var(v) for v in allv))
-            body_txt = self.block(list(s.body), env_b, recurse)
             st = self.state_type(mod, env)
             rt = 'res %s' % st if self.partial else st
             base = ('Ok %s' if self.partial else '%s') % self.state_tuple(mod)
-            self.aux.append('Fixpoint %s (xs_ : list %s) %s {struct xs_} : %s :=\n  match xs_ with\n'
+            if cached is None:
+                self.loop_cache[ckey] = lname
+                body_txt = self.block(list(s.body), env_b, recurse)
+                self.aux.append('Fixpoint %s (xs_ : list %s) %s {struct xs_} : %s :=\n  match xs_ with\n'
                             '  | [] => %s\n  | %s :: xs_ =>\n%s\n  end.\n'
-                            % (lname, coq_type(itt[1]), params, rt, base, self.var(x), indent(body_txt, 4)))
+                                % (lname, coq_type(itt[1]), params, rt, base, self.var(x), indent(body_txt, 4)))
             call = '%s %s %s' % (lname, it, ' '.join(self.var(v) for v in allv))
             env_r = dict(env)
             if self.partial:
@@ -1097,6 +1133,24 @@ class FnTranslator(object):
                 if not (isinstance(t, tuple) and t[0] == 'list'):
                     raise Unsupported('len of %r' % (t,))
                 return '(Z.of_nat (length %s))' % e, Z
+            if f.id == 'int' and len(node.args) == 2:
+                # idiom: int(''.join("%02x" % i for i in <bytes>), 16)  ==  big-endian bytes -> integer
+                a0, a1 = node.args
+                if (isinstance(a1, ast.Constant) and a1.value == 16 and isinstance(a0, ast.Call)
+                        and isinstance(a0.func, ast.Attribute) and a0.func.attr == 'join'
+                        and isinstance(a0.func.value, ast.Constant) and a0.func.value.value == ''
+                        and len(a0.args) == 1 and isinstance(a0.args[0], ast.GeneratorExp)):
+                    g = a0.args[0]
+                    if (len(g.generators) == 1 and not g.generators[0].ifs and isinstance(g.generators[0].target, ast.Name)
+                            and isinstance(g.elt, ast.BinOp) and isinstance(g.elt.op, ast.Mod)
+                            and isinstance(g.elt.left, ast.Constant) and g.elt.left.value == '%02x'
+                            and isinstance(g.elt.right, ast.Name) and g.elt.right.id == g.generators[0].target.id):
+                        e, t = self.expr(g.generators[0].iter, BYTES, env, hoisted)
+                        if t != BYTES:
+                            raise Unsupported('hex-join idiom over %r' % (t,))
+                        # int('', 16) raises ValueError for an empty byte string
+                        return self.hoist(hoisted, 'py_be_to_int %s' % e), Z
+                raise Unsupported('int(x, base) call shape')
             if f.id == 'int' and len(node.args) == 1:
                 e, t = self.expr(node.args[0], None, env, hoisted)
                 if t == Z:
